@@ -23,7 +23,8 @@ def main():
         if prop in ("C01", "C04", "C07", "C17", "C10", "C05", "C06L2"):
             from .check_sweep import run_property
 
-            sys.exit(run_property(prop, a.tier, seeds, ops))
+            # C06L2: only the forwarding sweep (layer 2) of C06, for focused runs on chosen seeds
+            sys.exit(run_property("C06" if prop == "C06L2" else prop, a.tier, seeds, ops))
         if prop == "C11":
             from .check_c11 import run
 
